@@ -62,6 +62,10 @@ def random_cases(ctx, n):
                 specs.append(gen.rand_gate_spec(rng, nq, allow_multi=True))
             else:
                 specs += gen.rand_circuit_spec(rng, nq, nb, 1, p_nongate=1.0)
+        if rng.random() < 0.25:
+            q = rng.randrange(nq)
+            a, b = rng.choice([("T", "T"), ("Tdag", "Tdag"), ("S", "Sdag"), ("T", "Tdag"), ("X90", "mX90"), ("S", "T")])
+            specs += [["named", a, [q]], ["named", b, [q]]]       # products that the naming step may turn into a default gate
         out.append({"nq": nq, "nb": nb, "specs": specs, "pass": ["merge"]})
     return out
 
@@ -224,6 +228,8 @@ def run_suites(ctx, oracle_fn, with_second=False):
                 ctx.seen(case, nrot >= 1)
                 ctx.bump(f"rotations_{min(nrot, 6)}")
                 oracle_fn(ctx, name, case, ev, eq)
+                if ev["err"] is None and ctx.rng.random() < 0.3:
+                    implrun.history_noise(ev["circuit"], ctx.rng)
             if chunk:
                 ctx.sample({"specs": chunk[len(chunk) // 2]["specs"], "post_len": len(evals[len(chunk) // 2]["post"])})
 
